@@ -418,9 +418,6 @@ pub fn check_c16(tier: Tier) -> i32 {
   for r in &reserved {
     for unify in [false, true] {
       for backend in [Backend::Vec, Backend::Anon, Backend::File] {
-        if backend == Backend::File && !unify {
-          continue;
-        }
         if backend != Backend::Vec && !thorough && *r > 40 && r % 8 > 1 {
           continue;
         }
@@ -440,11 +437,11 @@ pub fn check_c16(tier: Tier) -> i32 {
   // (b) histories with the layout oracle (reserved immutable, id bytes, remaining, first offset) on both flavours
   use Op::*;
   use Sz::*;
-  let alphabet = vec![B(N(7)), B(N(16)), B(R), T(U64), T(A16), AB(U32, N(5)), TO(U16), D(0), D(1), F(0), Disc, IncDisc(3), SetMin(0), Rewind(Pos::Start(0)), Clear];
+  let alphabet = vec![B(N(7)), B(N(16)), B(R), T(U64), T(A16), AB(U32, N(5)), TO(U16), D(0), D(1), F(0), Disc, IncDisc(3), SetMin(0), Rewind(Pos::Start(0)), Rewind(Pos::End(190)), Rewind(Pos::Cur(-300)), Clear];
   let spec = Spec { alphabet: alphabet.clone(), depth: if thorough { 4 } else { 3 }, oracles: O_LAYOUT, sync: true, unsync: true, diff: false, diff_prop: "C16" };
   let mut cells = vec![];
   for fl in Fl::ALL {
-    for (b, u) in [(Backend::Vec, false), (Backend::Vec, true), (Backend::Anon, true), (Backend::File, true)] {
+    for (b, u) in [(Backend::Vec, false), (Backend::Vec, true), (Backend::Anon, true), (Backend::File, true), (Backend::File, false)] {
       for reserved in [0u32, 5, 8] {
         let mut c = Cfg::new(fl, b, u, 200 + reserved);
         c.reserved = reserved;
@@ -654,7 +651,7 @@ pub fn check_c17(tier: Tier) -> i32 {
   let ccells: Vec<Cfg> = {
     let mut v = vec![];
     for fl in Fl::ALL {
-      for (b, u) in [(Backend::Vec, false), (Backend::Vec, true), (Backend::Anon, true), (Backend::File, true)] {
+      for (b, u) in [(Backend::Vec, false), (Backend::Vec, true), (Backend::Anon, true), (Backend::File, true), (Backend::File, false)] {
         for reserved in [0u32, 5] {
           if reserved == 5 && !thorough && b != Backend::Vec {
             continue;
@@ -830,10 +827,12 @@ pub fn check_c18(tier: Tier) -> i32 {
       let o = cfg.options().with_read(true);
       let mut a: unsync::Arena = unsafe { if copy { o.map_copy_read_only(&p) } else { o.map(&p) } }.unwrap();
       let cap0 = a.capacity();
-      let r = a.truncate(512);
-      run.eval(1);
-      if r.is_ok() || a.capacity() != cap0 {
-        viol(&run, "C18", "truncate-on-readonly", format!("[{:?} copy={}] truncate on a read-only arena: result ok={} capacity {} -> {}", fl, copy, r.is_ok(), cap0, a.capacity()), json!({"engine": "c18-ro", "fl": fl, "copy": copy}));
+      for n in [0usize, 1, cap0 - 1, cap0, cap0 + 1, 512] {
+        let r = a.truncate(n);
+        run.eval(1);
+        if r.is_ok() || a.capacity() != cap0 {
+          viol(&run, "C18", "truncate-on-readonly", format!("[{:?} copy={}] truncate({}) on a read-only arena: result ok={} capacity {} -> {}", fl, copy, n, r.is_ok(), cap0, a.capacity()), json!({"engine": "c18-ro", "fl": fl, "copy": copy, "n": n}));
+        }
       }
       drop(a);
       if std::fs::read(&p).unwrap() != before {
